@@ -10,7 +10,7 @@ pub fn def() -> PropertyDef {
     PropertyDef {
         id: "C07",
         level: "exploration",
-        scenarios: vec![Box::new(ReproSched), Box::new(Concurrent), Box::new(ProgressVsRun), Box::new(InitPure)],
+        scenarios: vec![Box::new(ReproSched), Box::new(Concurrent), Box::new(ProgressVsRun), Box::new(InitPure), Box::new(SeedSensitivity)],
         assumptions: vec![
             "inside simulations the rayon pool is the simulator's work-claiming stub (W workers, any element to any worker in any order); real rayon pools are run as a fidelity cross-check",
             "MH proposals are seeded by the harness via Proposal::set_seed before construction (they are inputs of the sampler)",
@@ -185,23 +185,16 @@ impl Scenario for ReproSched {
             );
         }
         // different seeds give different output (samplers that draw from a library generator)
-        // (only judged when the reference output shows at least two accepted moves: a chain that
-        // never moved says nothing about the random stream, and identical *moves* under two seeds
-        // cannot be a coincidence)
-        let dim = a.shape[2].max(1);
-        let mut moves = 0;
-        for c in 0..a.shape[0] {
-            for k in 1..a.shape[1] {
-                let r0 = &a.bits[(c * a.shape[1] + k - 1) * dim..(c * a.shape[1] + k) * dim];
-                let r1 = &a.bits[(c * a.shape[1] + k) * dim..(c * a.shape[1] + k + 1) * dim];
-                if r0 != r1 {
-                    moves += 1;
-                }
-            }
-        }
-        if kind_uses_library_rng(&spec.kind) && moves >= 2 {
+        if seed_verdict_meaningful(&spec, &a) {
             let mut other = spec.clone();
-            other.seed = spec.seed ^ 0x1234_5678;
+            // structured perturbations: one flipped bit at any position, a small offset, or a scramble
+            let mut pg = Gen::new(mix(spec.seed, pu(&params["spec"], "pos_seed") ^ 0xd1ff));
+            other.seed = match pg.range(0, 5) {
+                0 | 1 | 2 => spec.seed ^ (1u64 << pg.range(0, 63)),
+                3 => spec.seed.wrapping_add(pg.range(1, 2 * spec.n_chains as u64 + 2)),
+                4 => spec.seed.wrapping_add(1u64 << 62),
+                _ => spec.seed ^ 0x1234_5678,
+            };
             if let Ok(Ok(c)) = solo(&other, Mode::Sequential) {
                 o.count("probe_other_seed_compared", 1);
                 if c.bits == a.bits {
@@ -513,5 +506,136 @@ impl Scenario for InitPure {
     }
     fn components(&self) -> Value {
         json!({"real": ["init_with_seed", "init_det"], "stub": ["threads = simulator"]})
+    }
+}
+
+// ---------------------------------------------------------------------------------------------
+/// Is a "same output under two seeds" verdict meaningful for this base run? With the inputs
+/// (incl. the proposal stream) fixed, two MH runs differ only through binary accept/reject
+/// decisions, so short runs can coincide by chance: demand >= 200 collected transitions per chain
+/// and >= 40 accepted moves (coincidence probability far below 2^-40). HMC / NUTS draw continuous
+/// momenta from the seeded generator: two accepted moves suffice.
+pub fn seed_verdict_meaningful(spec: &Spec, base: &RunOut) -> bool {
+    if !kind_uses_library_rng(&spec.kind) {
+        return false;
+    }
+    if spec.kind.starts_with("mh") {
+        spec.n_collect >= 200 && count_moves(base) >= 40
+    } else {
+        count_moves(base) >= 2
+    }
+}
+
+/// count accepted moves (consecutive rows that differ) in a run output
+fn count_moves(a: &RunOut) -> usize {
+    let dim = a.shape[2].max(1);
+    let mut moves = 0;
+    for c in 0..a.shape[0] {
+        for k in 1..a.shape[1] {
+            let r0 = &a.bits[(c * a.shape[1] + k - 1) * dim..(c * a.shape[1] + k) * dim];
+            let r1 = &a.bits[(c * a.shape[1] + k) * dim..(c * a.shape[1] + k + 1) * dim];
+            if r0 != r1 {
+                moves += 1;
+            }
+        }
+    }
+    moves
+}
+
+struct SeedSensitivity;
+impl Scenario for SeedSensitivity {
+    fn name(&self) -> &'static str {
+        "seed_sensitivity"
+    }
+    fn runs(&self, tier: Tier) -> u64 {
+        tier.pick(160, 6_000)
+    }
+    fn generate(&self, g: &mut Gen, _tier: Tier, _idx: u64) -> Value {
+        let kinds: Vec<&str> = KINDS.iter().copied().filter(|k| kind_uses_library_rng(k)).collect();
+        let mut spec = gen_spec(g, &kinds);
+        let kind = ps(&spec, "kind").to_string();
+        let heavy = kind.starts_with("hmc") || kind.starts_with("nuts");
+        if !heavy {
+            spec = with(&spec, "n_collect", json!(g.usize(200, 400)));
+            spec = with(&spec, "n_chains", json!(g.usize(1, 8)));
+        } else {
+            spec = with(&spec, "n_collect", json!(g.usize(4, 8)));
+        }
+        json!({"spec": spec, "pseed": g.u64(), "n_pairs": if heavy { 6 } else { 72 }})
+    }
+    fn execute(&self, params: &Value, want_sample: bool) -> Outcome {
+        let mut o = Outcome::default();
+        let spec = spec_of(&params["spec"]);
+        let fam = kind_family(&spec.kind);
+        let base = match solo(&spec, Mode::Sequential) {
+            Ok(Ok(r)) => r,
+            Ok(Err(e)) => {
+                o.violate("run_err", &format!("{fam}:run-Err"), e);
+                return o;
+            }
+            Err(m) => {
+                o.violate("panic", &panic_key(&spec.kind, &m), m);
+                return o;
+            }
+        };
+        o.hash = str_hash(&params.to_string());
+        if !seed_verdict_meaningful(&spec, &base) {
+            o.count("skipped_chain_did_not_move_enough", 1);
+            return o;
+        }
+        o.nontrivial = true;
+        let mut pg = Gen::new(pu(params, "pseed"));
+        let mut cands: Vec<u64> = (0..64).map(|b| spec.seed ^ (1u64 << b)).collect();
+        for k in 1..=(spec.n_chains as u64 + 2) {
+            cands.push(spec.seed.wrapping_add(k));
+        }
+        cands.push(spec.seed.wrapping_add(1u64 << 62));
+        cands.push(!spec.seed);
+        cands.push(spec.seed.wrapping_mul(3).wrapping_add(7));
+        let n_pairs = pus(params, "n_pairs");
+        let mut tried = vec![];
+        while tried.len() < n_pairs.min(cands.len()) {
+            let c = cands.remove(pg.usize(0, cands.len() - 1));
+            tried.push(c);
+        }
+        for other_seed in tried {
+            let mut other = spec.clone();
+            other.seed = other_seed;
+            o.work += (spec.n_chains * (spec.n_collect + spec.n_discard)) as u64;
+            match solo(&other, Mode::Sequential) {
+                Ok(Ok(c)) => {
+                    o.count("probe_seed_pairs_compared", 1);
+                    if c.bits == base.bits {
+                        o.violate(
+                            "seed_ignored",
+                            &format!("{fam}:different-seeds-same-output"),
+                            format!("{} ({} chains) gives bit-identical output for seeds {} and {} (xor {:#x})", spec.kind, spec.n_chains, spec.seed, other_seed, spec.seed ^ other_seed),
+                        );
+                        break;
+                    }
+                }
+                Ok(Err(e)) => {
+                    o.violate("run_err", &format!("{fam}:run-Err"), e);
+                    break;
+                }
+                Err(m) => {
+                    o.violate("panic", &panic_key(&spec.kind, &m), format!("seed {other_seed}: {m}"));
+                    break;
+                }
+            }
+        }
+        if want_sample {
+            o.sample = Some(json!({"spec": params["spec"], "moves_in_base_run": count_moves(&base)}));
+        }
+        o
+    }
+    fn shrink(&self, p: &Value) -> Vec<Value> {
+        shrink_spec(&p["spec"]).into_iter().map(|s| with(p, "spec", s)).collect()
+    }
+    fn rule(&self) -> &'static str {
+        "one run = a seeded sampler whose base run moved (>= 2 accepted moves; discrete walk >= 40) compared with the same sampler under structured seed perturbations: every single flipped bit 0..63, offsets 1..n_chains+2, +2^62, complement, affine scramble (72 pairs for MH, 6 sampled for HMC/NUTS); outputs must differ"
+    }
+    fn components(&self) -> Value {
+        json!({"real": ["MetropolisHastings::seed", "HMC::set_seed", "NUTS::set_seed", "samplers' run"], "stub": []})
     }
 }
